@@ -42,6 +42,9 @@ def gen_content(rng, max_vars=7, max_depth=3, dashed=True, paths=True, free_vers
         if parent is None:
             v["depth"] = 1
             v["arches"] = sorted(subset(rng, pools.ARCHES, 1, 4))
+            if rng.random() < 0.15:
+                # the source pseudo-architecture listed explicitly (legal, unusual) / a name outside the usual handful
+                v["arches"] = sorted(set(v["arches"] + [pick(rng, ["src", "src", "ppc64", "noarch", "ia64"])]))
             if dashed and rng.random() < 0.2:
                 pre = pick(rng, DASH_PREFIXES)
                 tops_plain = [x["id"] for x in K["vars"] if x["parent"] is None and not x["dashed"]]
@@ -207,7 +210,7 @@ CI_POISON = [
     ("compose", "date", [None, 20150522, "2015", "2015052a", "201505221", ""]),
     ("compose", "type", [None, "prod", "Production", "", 3]),
     ("compose", "respin", [None, "0", 1.5]),
-    ("compose", "label", ["GA", "Beta", "Beta-1", "RC-1.0.1", "beta-1.0", 5, "RC-1.a"]),
+    ("compose", "label", pools.LABELS_BAD),
     ("release", "name", [None, 5]),
     ("release", "version", [None, 7, "", "1.", "1..2", "1a", "7.x"]),
     ("release", "short", [None, 5]),
@@ -258,15 +261,13 @@ def poison_sites(K):
                 sites.append({"kind": "var", "var": v["n"], "field": f, "bad": b, "good": v[f]})
         if v["parent"] is not None:
             p = K["vars"][v["parent"]]
-            foreign = [a for a in pools.ARCHES if a not in p["arches"]]
-            if foreign:
-                sites.append({"kind": "var", "var": v["n"], "field": "arches", "bad": sorted(v["arches"] + [foreign[0]]), "good": v["arches"]})
+            for fa in pools.foreign_arches(p["arches"], v["arches"])[:4]:
+                sites.append({"kind": "var", "var": v["n"], "field": "arches", "bad": sorted(v["arches"] + [fa]), "good": v["arches"]})
         sites.append({"kind": "var-inplace", "var": v["n"], "how": "clear", "good": v["arches"]})
         if v["parent"] is not None:
             p = K["vars"][v["parent"]]
-            foreign = [a for a in pools.ARCHES if a not in p["arches"]]
-            if foreign:
-                sites.append({"kind": "var-inplace", "var": v["n"], "how": "add", "value": foreign[0], "good": v["arches"]})
+            for fa in pools.foreign_arches(p["arches"], v["arches"])[:3]:
+                sites.append({"kind": "var-inplace", "var": v["n"], "how": "add", "value": fa, "good": v["arches"]})
         if v["type"] == "layered-product":
             for f, bads in VAR_REL_POISON:
                 for b in pools.with_generic(bads):
